@@ -450,6 +450,8 @@ package hashgraph
 //@   requires h != nil && event != nil && len(event.Body.Parents) == 2
 //@   modifies event.Body, G_miss(h.Store)
 //@   ensures[kept]    __eq(event.Body.Transactions, old(event.Body.Transactions)) && __eq(event.Body.InternalTransactions, old(event.Body.InternalTransactions)) && __eq(event.Body.Parents, old(event.Body.Parents)) && __eq(event.Body.Creator, old(event.Body.Creator)) && event.Body.Index == old(event.Body.Index) && __eq(event.Body.BlockSignatures, old(event.Body.BlockSignatures)) && event.Body.Timestamp == old(event.Body.Timestamp)
+//@   ensures[miss]    old(G_miss(h.Store)) ==> G_miss(h.Store)
+//@   ensures[fail]    ret0 != nil && __in(CreatorOf(event), G_rep(h.Store)) && (event.Body.Parents[0] == "" || __in(event.Body.Parents[0], G_events(h.Store))) && (event.Body.Parents[1] == "" || __in(event.Body.Parents[1], G_events(h.Store))) ==> G_miss(h.Store)
 //@   ensures[self]    ret0 == nil ==> (event.Body.Parents[0] == "" ==> event.Body.selfParentIndex == -1) && (event.Body.Parents[0] != "" ==> __in(event.Body.Parents[0], G_events(h.Store)) && event.Body.selfParentIndex == G_events(h.Store)[event.Body.Parents[0]].Body.Index)
 //@   ensures[other]   ret0 == nil ==> (event.Body.Parents[1] == "" ==> event.Body.otherParentIndex == -1 && event.Body.otherParentCreatorID == 0) && (event.Body.Parents[1] != "" ==> __in(event.Body.Parents[1], G_events(h.Store)) && event.Body.otherParentIndex == G_events(h.Store)[event.Body.Parents[1]].Body.Index)
 
